@@ -69,8 +69,22 @@ Section C20.
   Proof. unfold fcols. rewrite filter_In. auto. Qed.
 
   Lemma alter_column_ops g tn cc mc o : In o (alter_column g tn cc mc) -> op_nref o = NColumn tn (c_name mc) /\ col_op tn o.
-  Proof. unfold alter_column. destruct (compare_nullable cc mc); destruct (compare_type_col g cc mc); simpl; try tauto;
-      intros [<-|[]]; simpl; auto. Qed.
+  Proof. unfold alter_column. destruct (compare_nullable cc mc); destruct (compare_type_col g cc mc);
+      destruct (compare_server_default_col g cc mc); simpl; try tauto; intros [<-|[]]; simpl; auto. Qed.
+
+  Lemma ffks_In tn fs f : In f (ffks iname tn fs) -> In f fs /\ iname (NFk tn (f_name f)) = true.
+  Proof. unfold ffks. rewrite filter_In. auto. Qed.
+
+  Lemma cfk_f_In tn ct mt o : In o (compare_foreign_keys_f io iname tn ct mt) ->
+    fk_op tn o /\ accepted (op_nref o) /\ (drops_or_alters o = true -> iname (op_nref o) = true).
+  Proof. unfold compare_foreign_keys_f. destruct ct as [c|]; [|simpl; tauto]. destruct mt as [m|]; [|simpl; tauto].
+    rewrite in_app_iff, !in_flat_map. intros [[x [Hx H]]|[x [Hx H]]].
+    - destruct (existsb _ _); [inversion H|]. destruct (io _ _ _) eqn:E; [|inversion H]. destruct H as [<-|[]].
+      apply ffks_In in Hx. split; [simpl; auto|]. split; [|simpl; tauto].
+      apply (accepted_intro (OFk tn x) true _ E).
+    - destruct (existsb _ _); [inversion H|]. destruct (io _ _ _) eqn:E; [|inversion H]. destruct H as [<-|[]].
+      split; [simpl; auto|]. split; [|simpl; congruence]. apply (accepted_intro (OFk tn x) false _ E).
+  Qed.
 
   Lemma cols_f_In g tn c m o :
     In o (compare_columns_pre_f io iname g tn c m) \/ In o (compare_columns_post_f io iname tn c m) ->
@@ -93,6 +107,7 @@ Section C20.
 
   Lemma cons_op_table tn o : cons_op tn o -> op_table o = tn. Proof. destruct o; simpl; tauto. Qed.
   Lemma col_op_table tn o : col_op tn o -> op_table o = tn. Proof. destruct o; simpl; tauto. Qed.
+  Lemma fk_op_table tn o : fk_op tn o -> op_table o = tn. Proof. destruct o; simpl; tauto. Qed.
 
   (* every operation of the filtered comparison: approved for the object and for its table; names of drops/alters accepted *)
   Lemma diff_f_In g conn meta o : In o (diff_f io iname g conn meta) ->
@@ -113,13 +128,14 @@ Section C20.
       pose proof (accepted_intro (OTable m) false _ E) as Ht. simpl in Ht. apply kfind_some in Ec. destruct Ec as [Hc Hcn].
       apply ftables_In in Hc. destruct Hc as [_ [Hs Hn]]. rewrite Hcn in Hn.
       unfold existing_table_f in H. rewrite !in_app_iff in H.
-      assert (Hcase: (col_op (t_name m) o \/ cons_op (t_name m) o) /\ accepted (op_nref o) /\ (drops_or_alters o = true -> iname (op_nref o) = true)).
-      { destruct H as [H|[H|H]].
+      assert (Hcase: (col_op (t_name m) o \/ cons_op (t_name m) o \/ fk_op (t_name m) o) /\ accepted (op_nref o) /\ (drops_or_alters o = true -> iname (op_nref o) = true)).
+      { destruct H as [H|[H|[H|H]]].
         - destruct (cols_f_In g _ c m o (or_introl H)) as [? [? ?]]; auto.
         - destruct (ciu_f_In _ _ _ o H) as [? [? ?]]; auto.
+        - destruct (cfk_f_In _ _ _ o H) as [? [? ?]]; auto.
         - destruct (cols_f_In g _ c m o (or_intror H)) as [? [? ?]]; auto. }
       destruct Hcase as [Hop [Ha Hd]].
-      assert (Htab: op_table o = t_name m) by (destruct Hop; [apply col_op_table|apply cons_op_table]; auto).
+      assert (Htab: op_table o = t_name m) by (destruct Hop as [?|[?|?]]; [apply col_op_table|apply cons_op_table|apply fk_op_table]; auto).
       rewrite Htab. split; auto.
   Qed.
 
@@ -170,16 +186,16 @@ Section C20.
   Proof. intros Hn Hne. destruct (Bool.eqb (is_ix a) (is_ix b)) eqn:E; auto. exfalso. apply Hne. apply kref_same; auto. Qed.
 
   (* ============================================================ conservativity, column level *)
-  Lemma alter_column_shape g tn cc mc o : In o (alter_column g tn cc mc) -> exists a b x y, o = OpAlterColumn tn (c_name mc) a b x y.
-  Proof. unfold alter_column. destruct (compare_nullable cc mc); destruct (compare_type_col g cc mc); simpl; try tauto;
-      intros [<-|[]]; eauto. Qed.
+  Lemma alter_column_shape g tn cc mc o : In o (alter_column g tn cc mc) -> exists a b e x y z, o = OpAlterColumn tn (c_name mc) a b e x y z.
+  Proof. unfold alter_column. destruct (compare_nullable cc mc); destruct (compare_type_col g cc mc);
+      destruct (compare_server_default_col g cc mc); simpl; try tauto; intros [<-|[]]; eauto 8. Qed.
 
   Lemma cols_conservative g tn c m o :
     NoDup (keys c_name (t_cols c)) -> NoDup (keys c_name (t_cols m)) ->
     iname (op_nref o) = true ->
     (forall mc, o = OpAddColumn tn mc -> io (OColumn tn mc) false None = true) ->
     (forall n cc, o = OpDropColumn tn n -> kfind c_name n (t_cols c) = Some cc -> io (OColumn tn cc) true None = true) ->
-    (forall n a b x y mc cc, o = OpAlterColumn tn n a b x y -> kfind c_name n (t_cols m) = Some mc -> kfind c_name n (t_cols c) = Some cc ->
+    (forall n a b e x y z mc cc, o = OpAlterColumn tn n a b e x y z -> kfind c_name n (t_cols m) = Some mc -> kfind c_name n (t_cols c) = Some cc ->
         io (OColumn tn mc) false (Some (OColumn tn cc)) = true) ->
     (In o (compare_columns_pre_f io iname g tn c m) <-> In o (compare_columns_pre g tn c m)) /\
     (In o (compare_columns_post_f io iname tn c m) <-> In o (compare_columns_post tn c m)).
@@ -196,8 +212,8 @@ Section C20.
           rewrite memN_fcols, E; auto. rewrite (Gadd x eq_refl). left; auto.
         * right. exists x. split; auto. destruct (kfind c_name (c_name x) (t_cols c)) as [cc|] eqn:E; [|inversion H].
           destruct (alter_column_ops g tn cc x o H) as [Hr _]. rewrite Hr in Hname.
-          destruct (alter_column_shape g tn cc x o H) as [a [b [y [z Ho]]]].
-          rewrite kfind_fcols, E; auto. rewrite (Galt _ _ _ _ _ x cc Ho); auto. apply kfind_nodup; auto.
+          destruct (alter_column_shape g tn cc x o H) as [a [b [e [y [z [w Ho]]]]]].
+          rewrite kfind_fcols, E; auto. rewrite (Galt _ _ _ _ _ _ _ x cc Ho); auto. apply kfind_nodup; auto.
     - unfold compare_columns_post_f, compare_columns_post. rewrite !in_flat_map. split.
       + intros [x [Hx H]]. apply fcols_In in Hx. destruct Hx as [Hx _]. exists x. split; auto.
         destruct (memN _ _); [inversion H|]. destruct (io _ _ _); [|inversion H]. auto.
@@ -299,11 +315,49 @@ Section C20.
       + apply filter_In. split; auto. unfold fcons. apply filter_In. auto.
       + unfold cons_guard in Hg. rewrite (kfind_nodup k_name x _ Hc Hx) in Hg. cbn in Hg. rewrite obj_removed_f_of; auto. Qed.
 
+  (* ============================================================ conservativity, foreign keys *)
+  Lemma kfind_ffks tn n fs : iname (NFk tn n) = true -> kfind f_name n (ffks iname tn fs) = kfind f_name n fs.
+  Proof. intros Hn. unfold kfind, ffks. induction fs as [|a l IH]; simpl; auto.
+    destruct (N.eqb_spec (f_name a) n) as [E|E].
+    - rewrite E, Hn. simpl. rewrite E, N.eqb_refl. auto.
+    - destruct (iname (NFk tn (f_name a))); simpl; auto. apply N.eqb_neq in E. rewrite E. auto. Qed.
+
+  Lemma cfk_conservative tn c m o :
+    NoDup (keys f_name (t_fks c)) -> NoDup (keys f_name (t_fks m)) ->
+    iname (op_nref o) = true ->
+    (forall mf, o = OpAddFk tn mf -> forallb (fun cf => implb (fk_sig_eqb mf cf) (iname (NFk tn (f_name cf)))) (t_fks c) = true
+                                   /\ io (OFk tn mf) false (option_map (OFk tn) (kfind f_name (f_name mf) (t_fks c))) = true) ->
+    (forall n cf, o = OpDropFk tn n -> kfind f_name n (t_fks c) = Some cf ->
+                  io (OFk tn cf) true (option_map (OFk tn) (kfind f_name n (t_fks m))) = true) ->
+    (In o (compare_foreign_keys_f io iname tn (Some c) (Some m)) <-> In o (compare_foreign_keys tn (Some c) (Some m))).
+  Proof. intros Hc Hm Hname Gadd Gdrop. unfold compare_foreign_keys_f, compare_foreign_keys. rewrite !in_app_iff, !in_flat_map. split.
+    - intros [[x [Hx H]]|[x [Hx H]]].
+      + left. exists x. apply ffks_In in Hx. destruct Hx as [Hx _]. split; auto.
+        destruct (existsb _ _); [inversion H|]. destruct (io _ _ _); [auto|inversion H].
+      + right. exists x. split; auto. destruct (existsb (fk_sig_eqb x) (ffks iname tn (t_fks c))) eqn:E; [inversion H|].
+        destruct (io _ _ _); [|inversion H]. destruct H as [<-|[]]. destruct (Gadd x eq_refl) as [Htw _].
+        destruct (existsb (fk_sig_eqb x) (t_fks c)) eqn:E'; [|left; auto]. exfalso.
+        apply existsb_exists in E'. destruct E' as [cf [Hcf Hs]]. rewrite forallb_forall in Htw. specialize (Htw cf Hcf). rewrite Hs in Htw. simpl in Htw.
+        assert (existsb (fk_sig_eqb x) (ffks iname tn (t_fks c)) = true).
+        { apply existsb_exists. exists cf. split; auto. unfold ffks. apply filter_In. auto. }
+        congruence.
+    - intros [[x [Hx H]]|[x [Hx H]]].
+      + left. exists x. destruct (existsb (fk_sig_eqb x) (t_fks m)) eqn:E; [inversion H|]. destruct H as [<-|[]]. simpl in Hname. split.
+        * unfold ffks. apply filter_In. auto.
+        * rewrite (Gdrop (f_name x) x eq_refl); [left; auto|]. apply kfind_nodup; auto.
+      + right. exists x. split; auto. destruct (existsb (fk_sig_eqb x) (t_fks c)) eqn:E; [inversion H|]. destruct H as [<-|[]]. simpl in Hname.
+        assert (E': existsb (fk_sig_eqb x) (ffks iname tn (t_fks c)) = false).
+        { destruct (existsb (fk_sig_eqb x) (ffks iname tn (t_fks c))) eqn:E2; auto. apply existsb_exists in E2. destruct E2 as [cf [Hcf Hs]].
+          apply ffks_In in Hcf. assert (existsb (fk_sig_eqb x) (t_fks c) = true) by (apply existsb_exists; exists cf; tauto). congruence. }
+        rewrite E', kfind_ffks; auto. destruct (Gadd x eq_refl) as [_ Hio]. rewrite Hio. left; auto.
+  Qed.
+
   (* ============================================================ conservativity, table level *)
   Lemma existing_f_ops g c m o : In o (existing_table_f io iname g c m) -> op_table o = t_name m.
-  Proof. unfold existing_table_f. rewrite !in_app_iff. intros [H|[H|H]].
+  Proof. unfold existing_table_f. rewrite !in_app_iff. intros [H|[H|[H|H]]].
     - destruct (cols_f_In g _ c m o (or_introl H)) as [Hop _]. apply col_op_table; auto.
     - destruct (ciu_f_In _ _ _ o H) as [Hop _]. apply cons_op_table; auto.
+    - destruct (cfk_f_In _ _ _ o H) as [Hop _]. apply fk_op_table; auto.
     - destruct (cols_f_In g _ c m o (or_intror H)) as [Hop _]. apply col_op_table; auto. Qed.
   Lemma added_f_ops m o : In o (added_table_f io iname m) -> op_table o = t_name m.
   Proof. intros [<-|H]; [reflexivity|]. destruct (ciu_f_In _ _ _ o H) as [Hop _]. apply cons_op_table; auto. Qed.
@@ -318,9 +372,10 @@ Section C20.
 
   Lemma existing_conservative g conn meta c m o :
     kfind t_name (t_name m) conn = Some c -> kfind t_name (t_name m) meta = Some m -> nd_table c -> nd_table m ->
-    iname (op_nref o) = true -> obj_guard io conn meta o = true ->
+    NoDup (keys f_name (t_fks c)) -> NoDup (keys f_name (t_fks m)) ->
+    iname (op_nref o) = true -> fk_twin_ok iname conn o = true -> obj_guard io conn meta o = true ->
     (In o (existing_table_f io iname g c m) <-> In o (existing_table g c m)).
-  Proof. intros Hc Hm [Hcc Hck] [Hmc Hmk] Hname Hg.
+  Proof. intros Hc Hm [Hcc Hck] [Hmc Hmk] Hcf Hmf Hname Htw Hg.
     assert (Htab: In o (existing_table_f io iname g c m) \/ In o (existing_table g c m) -> op_table o = t_name m).
     { intros [H|H]; [eapply existing_f_ops|eapply existing_ops_table]; eauto. }
     assert (Hcols: (In o (compare_columns_pre_f io iname g (t_name m) c m) <-> In o (compare_columns_pre g (t_name m) c m)) /\
@@ -328,12 +383,16 @@ Section C20.
     { apply cols_conservative; auto.
       - intros mc ->. exact Hg.
       - intros n cc -> E. simpl in Hg. unfold lk_col in Hg. rewrite Hc, E in Hg. auto.
-      - intros n a b x y mc cc -> E1 E2. simpl in Hg. unfold lk_col in Hg. rewrite Hc, Hm, E1, E2 in Hg. auto. }
+      - intros n a b e x y z mc cc -> E1 E2. simpl in Hg. unfold lk_col in Hg. rewrite Hc, Hm, E1, E2 in Hg. auto. }
     assert (Hcons: op_table o = t_name m ->
               (In o (compare_indexes_and_uniques_f io iname (t_name m) (Some c) (Some m)) <-> In o (compare_indexes_and_uniques (t_name m) (Some c) (Some m)))).
     { intros Ht. apply ciu_conservative_existing; auto. eapply obj_guard_cons; eauto.
       - intros n. unfold lk_cons. rewrite Hc. auto.
       - intros n. unfold lk_cons. rewrite Hm. auto. }
+    assert (Hfks: In o (compare_foreign_keys_f io iname (t_name m) (Some c) (Some m)) <-> In o (compare_foreign_keys (t_name m) (Some c) (Some m))).
+    { apply cfk_conservative; auto.
+      - intros mf ->. simpl in Hg, Htw. unfold lk_fk in Hg. unfold lk_fks in Htw. rewrite Hc in Hg, Htw. auto.
+      - intros n cf -> E. simpl in Hg. unfold lk_fk in Hg. rewrite Hc, Hm, E in Hg. auto. }
     destruct Hcols as [Hpre Hpost].
     split; intros H; pose proof (Htab (or_introl H)) as Ht || pose proof (Htab (or_intror H)) as Ht;
       unfold existing_table_f, existing_table in *; rewrite !in_app_iff in *; specialize (Hcons Ht); tauto.
@@ -358,7 +417,7 @@ Section C20.
   Theorem diff_f_conservative g conn meta o : nd_schema conn -> nd_schema meta ->
     acc io iname conn meta o = true -> (In o (diff_f io iname g conn meta) <-> In o (diff g conn meta)).
   Proof. intros [HAn HAt] [HBn HBt] Hacc. unfold acc, name_ok in Hacc. rewrite !andb_true_iff in Hacc.
-    destruct Hacc as [[[[Hs Ht] Hn] Hg1] Hg2]. unfold diff_f, diff. rewrite in_compare_tables_f, in_compare_tables.
+    destruct Hacc as [[[[[Hs Ht] Hn] Htw] Hg1] Hg2]. unfold diff_f, diff. rewrite in_compare_tables_f, in_compare_tables.
     unfold table_guard in Hg1. split.
     - intros [[m [Hm [E [Hio H]]]]|[[c [Hc [E [Hio H]]]]|[m [c [Hm [E [Hio H]]]]]]].
       + left. exists m. split; auto. pose proof (added_f_ops _ _ H) as Htab. rewrite Htab in *.
@@ -370,15 +429,15 @@ Section C20.
         * intros n. unfold lk_cons. rewrite (kfind_nodup t_name m meta); auto.
       + apply ftables_In in Hc. destruct Hc as [Hc _]. right; left. exists c. split; auto. split; auto.
         pose proof (removed_f_ops _ _ H) as Htab. unfold removed_table_f in H. unfold removed_table. rewrite in_app_iff in *.
-        destruct H as [H|H]; [left|right; auto]. destruct (HAt c Hc) as [_ Hk]. apply ciu_conservative_dropped; auto.
+        destruct H as [H|H]; [left|right; auto]. destruct (HAt c Hc) as [[_ Hk] _]. apply ciu_conservative_dropped; auto.
         eapply obj_guard_cons; eauto.
         * intros n. unfold lk_cons. rewrite (kfind_nodup t_name c conn); auto.
         * intros n. unfold lk_cons. rewrite (memN_false_kfind t_name _ _ E). auto.
       + right; right. exists m, c. split; auto. pose proof (existing_f_ops _ _ _ _ H) as Htab. rewrite Htab in *.
         rewrite kfind_ftables in E; auto. split; auto.
-        apply (existing_conservative g conn meta c m o); auto.
-        * apply kfind_nodup; auto.
-        * apply HAt. apply kfind_some in E. tauto.
+        assert (Hcin: In c conn) by (apply kfind_some in E; tauto).
+        destruct (HAt c Hcin) as [? ?]. destruct (HBt m Hm) as [? ?].
+        apply (existing_conservative g conn meta c m o); auto. apply kfind_nodup; auto.
     - intros [[m [Hm [E H]]]|[[c [Hc [E H]]]|[m [c [Hm [E H]]]]]].
       + left. exists m. pose proof (added_ops _ _ H) as Htab. rewrite Htab in *.
         pose proof (memN_false_kfind t_name _ _ E) as Ec. rewrite (kfind_nodup t_name m meta), Ec in Hg1; auto.
@@ -391,15 +450,15 @@ Section C20.
         pose proof (memN_false_kfind t_name _ _ E) as Em. rewrite (kfind_nodup t_name c conn), Em in Hg1; auto.
         split. { unfold ftables. rewrite Hs. apply filter_In. auto. } split; auto. split; auto.
         unfold removed_table in H. unfold removed_table_f. rewrite in_app_iff in *.
-        destruct H as [H|H]; [left|right; auto]. destruct (HAt c Hc) as [_ Hk]. apply ciu_conservative_dropped; auto.
+        destruct H as [H|H]; [left|right; auto]. destruct (HAt c Hc) as [[_ Hk] _]. apply ciu_conservative_dropped; auto.
         eapply obj_guard_cons; eauto.
         * intros n. unfold lk_cons. rewrite (kfind_nodup t_name c conn); auto.
         * intros n. unfold lk_cons. rewrite Em. auto.
       + right; right. exists m, c. pose proof (existing_ops_table _ _ _ _ H) as Htab. rewrite Htab in *.
         rewrite (kfind_nodup t_name m meta), E in Hg1; auto. split; auto. split; [rewrite kfind_ftables; auto|]. split; auto.
-        apply (existing_conservative g conn meta c m o); auto.
-        * apply kfind_nodup; auto.
-        * apply HAt. apply kfind_some in E. tauto.
+        assert (Hcin: In c conn) by (apply kfind_some in E; tauto).
+        destruct (HAt c Hcin) as [? ?]. destruct (HBt m Hm) as [? ?].
+        apply (existing_conservative g conn meta c m o); auto. apply kfind_nodup; auto.
   Qed.
 End C20.
 
@@ -410,24 +469,32 @@ Lemma mset_eqb_refl {A} (e:A->A->bool) l : (forall a, e a a = true) -> mset_eqb 
 Proof. intros He. induction l; simpl; auto. rewrite He. auto. Qed.
 Lemma ty_eqb_refl t : ty_eqb t t = true.
 Proof. unfold ty_eqb. rewrite N.eqb_refl, list_eqbN_refl. auto. Qed.
+Lemma dflt_eqb_refl d : dflt_eqb d d = true.
+Proof. destruct d; simpl; apply list_eqbN_refl. Qed.
+Lemma opt_eqb_refl {A} (e:A->A->bool) o : (forall a, e a a = true) -> opt_eqb e o o = true.
+Proof. intros H. destruct o; simpl; auto. Qed.
 Lemma col_eqb_refl c : col_eqb c c = true.
-Proof. unfold col_eqb. rewrite N.eqb_refl, ty_eqb_refl, !eqb_reflx. auto. Qed.
+Proof. unfold col_eqb. rewrite N.eqb_refl, ty_eqb_refl, !eqb_reflx, (opt_eqb_refl dflt_eqb); auto using dflt_eqb_refl. Qed.
 Lemma cons_eqb_refl k : cons_eqb k k = true.
 Proof. destruct k; simpl; rewrite N.eqb_refl, list_eqbN_refl, ?eqb_reflx; auto. Qed.
+Lemma fk_eqb_refl f : fk_eqb f f = true.
+Proof. unfold fk_eqb. rewrite !N.eqb_refl, !list_eqbN_refl. auto. Qed.
 Lemma op_eqb_refl o : op_eqb o o = true.
-Proof. destruct o; simpl; rewrite ?N.eqb_refl, ?col_eqb_refl, ?cons_eqb_refl, ?eqb_reflx, ?ty_eqb_refl; auto.
-  - unfold table_equiv. rewrite N.eqb_refl, (list_eqb_refl col_eqb), (mset_eqb_refl cons_eqb); auto using col_eqb_refl, cons_eqb_refl.
-  - destruct m_null, m_ty; simpl; rewrite ?eqb_reflx, ?ty_eqb_refl; auto. Qed.
+Proof. destruct o; simpl; rewrite ?N.eqb_refl, ?col_eqb_refl, ?cons_eqb_refl, ?eqb_reflx, ?ty_eqb_refl, ?fk_eqb_refl; auto.
+  - unfold table_equiv. rewrite N.eqb_refl, (list_eqb_refl col_eqb), (mset_eqb_refl cons_eqb), (mset_eqb_refl fk_eqb);
+      auto using col_eqb_refl, cons_eqb_refl, fk_eqb_refl.
+  - rewrite !opt_eqb_refl; auto using dflt_eqb_refl, ty_eqb_refl, eqb_reflx. intros a. apply opt_eqb_refl. apply dflt_eqb_refl. Qed.
 Lemma inb_of_In o l : In o l -> inb o l = true.
 Proof. intros H. unfold inb. apply existsb_exists. exists o. split; auto. apply op_eqb_refl. Qed.
 
 Definition ob_of (r:nref) : obj :=
   match r with
-  | NTable t => OTable (mkTable t [] [])
-  | NColumn t c => OColumn t (mkCol c (mkTy 0 []) true false)
+  | NTable t => OTable (mkTable t [] [] [])
+  | NColumn t c => OColumn t (mkCol c (mkTy 0 []) true false None)
   | NUq t n => OCons t (Uq n [])
   | NIx t n => OCons t (Ix n [] false)
-  | NSchema => OTable (mkTable 0 [] [])
+  | NFk t n => OFk t (mkFk n [] 0 [])
+  | NSchema => OTable (mkTable 0 [] [] [])
   end.
 Lemma obj_acceptedb_sound f r : r <> NSchema -> obj_acceptedb f r = true -> obj_accepted (io_of f) r.
 Proof. intros Hr H. unfold obj_acceptedb in H. apply existsb_exists in H. destruct H as [[refl c] [_ H]]. simpl in H.
@@ -444,12 +511,18 @@ Proof. destruct i as [[A B] f]. unfold check_C20, C20_holds. rewrite !andb_true_
     split; apply obj_acceptedb_sound; auto; [apply op_nref_not_schema|congruence].
   - intros o Ho Hd. specialize (H2 o Ho). rewrite Hd in H2. simpl in H2. rewrite !andb_true_iff in H2. tauto. Qed.
 
+Lemma nd_schema_reflect A : nd_schema A -> nd_schema (reflect_sqlite A).
+Proof. intros [H1 H2]. split.
+  - unfold reflect_sqlite. rewrite (keys_map t_name reflect_table reflect_table_name). auto.
+  - intros t Ht. unfold reflect_sqlite in Ht. apply in_map_iff in Ht. destruct Ht as [t0 [<- Ht0]]. destruct (H2 t0 Ht0) as [[Ha Hb] Hc].
+    split; [split|]; cbn [reflect_table t_cols t_cons t_fks]; auto. rewrite (keys_map c_name reflect_col reflect_col_name). auto. Qed.
+
 Theorem model_C20_holds i : inclass_C20 i = true -> C20_holds i (model_C20 i).
-Proof. destruct i as [[A B] f]. unfold inclass_C20. simpl. intros Hin. apply inclass_C06_wf in Hin. simpl in Hin. destruct Hin as [HA HB].
-  apply wf_nd_schema in HA. apply wf_nd_schema in HB. rewrite !reflect_sqlite_id. split; [|split].
+Proof. destruct i as [[A B] f]. unfold inclass_C20. simpl. intros Hin. apply inclass_C06_wf in Hin. simpl in Hin. destruct Hin as [HA [HB _]].
+  apply wf_nd_schema in HA. apply wf_nd_schema in HB. apply nd_schema_reflect in HA. split; [|split].
   - intros o Ho. apply (diff_f_In _ _ _ _ _ _ Ho).
   - intros o Ho. apply (diff_f_In _ _ _ _ _ _ Ho).
   - unfold conservativeb. rewrite andb_true_iff, !forallb_forall. split; intros o Ho.
-    + destruct (acc _ _ _ _ o) eqn:E; simpl; auto. apply inb_of_In. apply (diff_f_conservative _ _ g20 A B o HA HB E). auto.
-    + destruct (acc _ _ _ _ o) eqn:E; simpl; auto. apply inb_of_In. apply (diff_f_conservative _ _ g20 A B o HA HB E). auto.
+    + destruct (acc _ _ _ _ o) eqn:E; simpl; auto. apply inb_of_In. apply (diff_f_conservative _ _ g20 _ B o HA HB E). auto.
+    + destruct (acc _ _ _ _ o) eqn:E; simpl; auto. apply inb_of_In. apply (diff_f_conservative _ _ g20 _ B o HA HB E). auto.
 Qed.
